@@ -240,8 +240,7 @@ def c06_main(prop, tier, seed, a):
         cev = load_trace(ctrace)
         notf = [e for e in cev.values() if e["ev"] == "NotFollowed"]
         # protocol events against JCall
-        v1, g1, d1 = _validate_one(specdir, ctrace, 300, 1, 3000, "TraceCall")
-        txt = open(os.path.join(specdir, "TraceCall.run300.out"), errors="replace").read()
+        txt, g1, d1 = run_tlc_raw(specdir, "TraceCall", ctrace, 300)
         proto_bad = None
         if "is violated" in txt:
             proto_bad = "OwnContextObserved violated: a built-in read a context item that is not the one of its own call site"
